@@ -1,15 +1,26 @@
 /- line protocol for the `mint` engine
-  reset <start> <period> <factor> <staking> <pool> <dev> <comm> <provisions> <vesting> <weight:community>…
-  epoch <n>
-  exportimport <GenesisEpochProvisions raw Dec>   -> ok prov=… last=…   (C19: x/mint ExportGenesis -> InitGenesis, `Det.mintInit (Det.mintExport g0 p s)`:
-                                                     the provisions become the genesis value, everything else is kept) -/
+
+ops
+  reset <start> <period> <factor> <staking> <pool> <dev> <comm> <prov> <vest> <weight:community>*   new history
+  gauges <id>:<1|0>*                  the gauges that exist in x/incentives (1 = perpetual)
+  distrinit <poolacct> <total> <gauge:weight>*   the stored DistrInfo and the pool-incentives module balance
+  update <gauge:weight>*              UpdatePoolIncentivesProposal through the gov handler
+  replace <gauge:weight>*             ReplacePoolIncentivesProposal
+        -> `ok total=<TotalWeight> records=[g:w,…]` | `err` | `panic`
+  exportimport <GenesisEpochProvisions raw Dec>   -> ok prov=… last=…   (C19: x/mint ExportGenesis -> InitGenesis: the provisions become the genesis value)
+  epoch <n>                           the mint epoch hook (through the epochs hook wrapper)
+        -> `ok minted=… … alloc=[g:amount,…] commtotal=<community pool funding> pacct=<module balance>` | `skip …` | `err …`
+-/
 import OsmoVerif.Model.Mint
+import OsmoVerif.Model.PoolIncentives
 import OsmoVerif.Model.Det
 namespace OsmoVerif.Mint
+open OsmoVerif.PoolIncentives
 
 structure DrvState where
   p : Params := ⟨0, 1, 0, 0, 0, 0, 0, []⟩
   s : State := ⟨0, 0, 0⟩
+  w : World := {}
 
 def initMint : DrvState := {}
 
@@ -23,7 +34,35 @@ def parseReceivers : List String → Option (List Receiver)
       some (⟨w, c = "1"⟩ :: rs)
     | _ => none
 
+def parseRecords : List String → Option (List Record)
+  | [] => some []
+  | x :: xs =>
+    match x.splitOn ":" with
+    | [g, w] => do
+      let g ← g.toNat?
+      let w ← w.toInt?
+      let rs ← parseRecords xs
+      some (⟨g, w⟩ :: rs)
+    | _ => none
+
+def parseGauges : List String → Option Gauges
+  | [] => some []
+  | x :: xs =>
+    match x.splitOn ":" with
+    | [g, p] => do
+      let g ← g.toNat?
+      let gs ← parseGauges xs
+      some ((g, p = "1") :: gs)
+    | _ => none
+
 def showList (l : List Int) : String := "[" ++ ",".intercalate (l.map toString) ++ "]"
+def showRecords (l : List Record) : String := "[" ++ ",".intercalate (l.map fun r => s!"{r.gauge}:{r.weight}") ++ "]"
+def showAlloc (l : List (Nat × Int)) : String := "[" ++ ",".intercalate (l.map fun r => s!"{r.1}:{r.2}") ++ "]"
+
+def showRes (st : DrvState) : Res DistrInfo → DrvState × String
+  | .ok d => ({ st with w := { st.w with distr := d } }, s!"ok total={d.totalWeight} records={showRecords d.records}")
+  | .err => (st, "err")
+  | .panic => (st, "panic")
 
 def stepMint (st : DrvState) (op : String) (args : List String) : DrvState × String :=
   match op, args with
@@ -32,21 +71,38 @@ def stepMint (st : DrvState) (op : String) (args : List String) : DrvState × St
     | some [start, period, factor, staking, pool, dev, comm, prov, vest], some rs =>
       ({ p := ⟨start, period, factor, staking, pool, dev, comm, rs⟩, s := ⟨prov, 0, vest⟩ }, "ok")
     | _, _ => (st, "bad-op")
+  | "gauges", gs =>
+    match parseGauges gs with
+    | some gs => ({ st with w := { st.w with gauges := gs } }, "ok")
+    | none => (st, "bad-op")
+  | "distrinit", acct :: total :: recs =>
+    match acct.toInt?, total.toInt?, parseRecords recs with
+    | some acct, some total, some rs => ({ st with w := { st.w with distr := ⟨total, rs⟩, poolAcct := acct } }, "ok")
+    | _, _, _ => (st, "bad-op")
+  | "update", recs =>
+    match parseRecords recs with
+    | some rs => showRes st (updateProposal st.w.gauges st.w.distr rs)
+    | none => (st, "bad-op")
+  | "replace", recs =>
+    match parseRecords recs with
+    | some rs => showRes st (replaceProposal st.w.gauges st.w.distr rs)
+    | none => (st, "bad-op")
   | "epoch", [e] =>
     match e.toInt? with
     | none => (st, "bad-op")
     | some e =>
-      match afterEpochEnd st.p st.s e with
+      match mintEpoch st.p st.s st.w e with
       | none => (st, s!"err prov={st.s.provisions} last={st.s.lastReduction}")
-      | some (s', none) => ({ st with s := s' }, s!"skip prov={s'.provisions} last={s'.lastReduction}")
-      | some (s', some o) =>
-        ({ st with s := s' },
-         s!"ok minted={o.minted} staking={o.staking} pool={o.pool} dev={o.dev} comm={o.communityRemainder} paid={showList o.paid} supply={o.supplyDelta} mintacct={o.mintAccountAfter} vest={s'.devVesting} prov={s'.provisions} last={s'.lastReduction}")
+      | some (s', _, none) => ({ st with s := s' }, s!"skip prov={s'.provisions} last={s'.lastReduction}")
+      | some (s', w', some (o, a)) =>
+        let devComm := if st.p.receivers.isEmpty then o.dev else devToCommunity st.p.receivers o.paid
+        ({ st with s := s', w := w' },
+         s!"ok minted={o.minted} staking={o.staking} pool={o.pool} dev={o.dev} comm={o.communityRemainder} paid={showList o.paid} supply={o.supplyDelta} mintacct={o.mintAccountAfter} vest={s'.devVesting} prov={s'.provisions} last={s'.lastReduction} alloc={showAlloc a.gauges} commtotal={o.communityRemainder + devComm + a.community} pacct={a.left}")
   | "exportimport", [g0] =>
     match g0.toInt? with
     | some g0 =>
       let r := Det.mintInit (Det.mintExport g0 st.p st.s) st.s.devVesting
-      ({ p := r.1, s := r.2 }, s!"ok prov={r.2.provisions} last={r.2.lastReduction}")
+      ({ st with p := r.1, s := r.2 }, s!"ok prov={r.2.provisions} last={r.2.lastReduction}")
     | none => (st, "bad-op")
   | _, _ => (st, "bad-op")
 
